@@ -7,12 +7,16 @@
   set, with sound lookup tables.  The compiled twin `invB` is evaluated on a structural dump of the
   real world after every operation of every generated history (correspondence check).
 
-  FULL STATEMENT (`C13_inv`): every history of public operations from an empty world ends in a
-  state satisfying `Inv`.  PROVED SO FAR (`C13_inv_partial`): histories over insert (any shape, any
-  order of components, slot reuse or fresh slot, table found by type / by bytes / created), remove
-  (any row: the swap-remove location fix-up; stale identifiers), reserve.  Operations not yet
-  covered by a Lean proof and held by the correspondence check + `invB` monitoring only: extend,
-  clear, Entry::add/remove, write, shrink_to_fit, clone, clone_from, deserialization.
+  FULL STATEMENT: every history of public operations from an empty world ends in a state
+  satisfying `Inv`.  PROVED (`C13_inv_partial`): every history over the single-world operations —
+  insert (any shape, any written order, slot reuse or fresh slot, table found by entity type / by
+  identifier bytes / created), extend (any batch size including 0, free queue longer / equal /
+  shorter than the batch), remove (any row: the swap-remove location fix-up; stale identifiers),
+  clear (for *every* order in which the table iterator may visit the archetypes), Entry::add
+  (overwrite and shape change), Entry::remove, writes through `&mut` views, reserve,
+  shrink_to_fit.  NOT YET PROVED in Lean (held by the correspondence check and by `invB` evaluated
+  on every real dump): clone, clone_from, deserialization — the part missing from the full
+  statement.
 -/
 import BroodModel.Lemmas.Ops
 
@@ -63,9 +67,11 @@ theorem C13_one_table_per_set {w : World} (hi : Inv w) : (w.archs.map (·.mask))
 def exampleWorld : Out World :=
   run (World.init 3 [])
     [.insert [0, 2] [⟨0, 1⟩, ⟨2, 2⟩], .insert [2, 0] [⟨2, 3⟩, ⟨0, 4⟩], .insert [0, 2] [⟨0, 5⟩, ⟨2, 6⟩],
-     .remove ⟨0, 0⟩, .insert [1] [⟨1, 7⟩], .remove ⟨9, 9⟩, .reserve [0, 1, 2]]
+     .remove ⟨0, 0⟩, .insert [1] [⟨1, 7⟩], .remove ⟨9, 9⟩, .reserve [0, 1, 2],
+     .extend [2] [[⟨2, 8⟩], [⟨2, 9⟩]], .add ⟨1, 0⟩ 1 ⟨1, 10⟩, .del ⟨2, 0⟩ 0, .write ⟨0, 1⟩ 1 ⟨1, 11⟩,
+     .shrink, .extend [0] []]
 
-example : (match exampleWorld with | .ok w => invB w && w.len == 3 && w.alloc.free == [] | .ub _ => false) = true := by
+example : (match exampleWorld with | .ok w => invB w && w.len == 5 && w.alloc.slots.length == 5 | .ub _ => false) = true := by
   decide
 
 end Brood
